@@ -136,14 +136,24 @@ func readerTable(w *World, fn *ssa.Function) readerTab {
 
 func ruleTabMnemonic(w *World, r *RuleResult) {
 	type fam struct {
-		typ, reader, reader88 string
-		lower                 bool
-		set88                 []string
+		typ          string
+		rd, rd88     *ssa.Function
+		reader       string
+		reader88     string
+		lower        bool
+		set88        []string
+	}
+	aa := Asm(w)
+	nameOf := func(f *ssa.Function) string {
+		if f == nil {
+			return ""
+		}
+		return f.Name()
 	}
 	fams := []fam{
-		{"OpCode", "getOpCode", "getOpCode88", true, []string{"DAT", "MOV", "ADD", "SUB", "JMP", "JMZ", "JMN", "DJN", "CMP", "SLT", "SPL"}},
-		{"OpMode", "getOpMode", "", true, nil},
-		{"AddressMode", "getAddressMode", "getAddressMode88", false, []string{"#", "$", "@", "<"}},
+		{"OpCode", aa.OpReader, aa.OpReader88, nameOf(aa.OpReader), nameOf(aa.OpReader88), true, []string{"DAT", "MOV", "ADD", "SUB", "JMP", "JMZ", "JMN", "DJN", "CMP", "SLT", "SPL"}},
+		{"OpMode", aa.ModReader, nil, nameOf(aa.ModReader), "", true, nil},
+		{"AddressMode", aa.ModeReader, aa.ModeReader88, nameOf(aa.ModeReader), nameOf(aa.ModeReader88), false, []string{"#", "$", "@", "<"}},
 	}
 	for _, f := range fams {
 		st, msg := stringTable(w, f.typ)
@@ -183,9 +193,9 @@ func ruleTabMnemonic(w *World, r *RuleResult) {
 				}
 			}
 		}
-		rfn := w.LibFunc(f.reader)
+		rfn := f.rd
 		if rfn == nil {
-			r.undecided(f.typ+"/reader", "-", f.reader+" not found")
+			r.undecided(f.typ+"/reader", "-", "reader func(string) ("+f.typ+", error) not found")
 			continue
 		}
 		rt := readerTable(w, rfn)
@@ -222,8 +232,8 @@ func ruleTabMnemonic(w *World, r *RuleResult) {
 				r.bad(f.reader+"/undeclared/"+s, rpos, fmt.Sprintf("%s(%q) returns the undeclared value %d", f.reader, s, v))
 			}
 		}
-		if f.reader88 != "" {
-			r88 := w.LibFunc(f.reader88)
+		if f.rd88 != nil {
+			r88 := f.rd88
 			if r88 == nil {
 				r.undecided(f.reader88, "-", "not found")
 				continue
@@ -357,9 +367,9 @@ func paramByType(fn *ssa.Function, typ string) []string {
 }
 
 func ruleTabDefault94(w *World, r *RuleResult) {
-	fn := w.LibFunc("getOpMode94")
+	fn := Asm(w).Default94
 	if fn == nil {
-		r.undecided("anchor", "-", "default-modifier function getOpMode94 not found")
+		r.undecided("anchor", "-", "default-modifier function (OpCode, AddressMode, AddressMode) (OpMode, error) not found")
 		return
 	}
 	rs, msg := enumRegions(w, fn)
@@ -467,9 +477,9 @@ func retSet(w *World, fn *ssa.Function) (uint64, bool) {
 }
 
 func ruleTabLegal88(w *World, r *RuleResult) {
-	fn := w.LibFunc("getOpModeAndValidate88")
+	fn := Asm(w).Validate88
 	if fn == nil {
-		r.undecided("anchor", "-", "getOpModeAndValidate88 not found")
+		r.undecided("anchor", "-", "'88 validator not found")
 		return
 	}
 	rs, msg := enumRegions(w, fn)
